@@ -78,6 +78,7 @@ Step ==
               post == apost'
               putDelta == {<<x, post.memo[x]>> : x \in {y \in DOMAIN post.memo : y \notin DOMAIN pre.memo \/ pre.memo[y] # post.memo[y]}}
               en == EnabledSet(mc, pre.stk, DOMAIN pre.memo)
+              tail == "tail" \in DOMAIN e      \* collapse-phase / STOP opcode following a forced emission
           IN msgs' =
             (IF e.err # "" THEN <<V(k, "C09", "forced emission failed: " \o e.err)>> ELSE <<>>)
          \o (IF e.err = "" /\ e.bytes = <<>> THEN <<V(k, "C11", "step emitted no opcode")>> ELSE <<>>)
@@ -87,18 +88,18 @@ Step ==
          \o (IF lexd'.known /\ lexd'.op \in ExtOps /\ c.ext = 0 THEN <<V(k, "C10", "EXT opcode although not enabled")>> ELSE <<>>)
          \o (IF lexd'.known /\ lexd'.op \in BufOps /\ c.buf = 0 THEN <<V(k, "C10", "buffer opcode although not enabled")>> ELSE <<>>)
          \o (IF safe /\ lexd'.known /\ OpProto(lexd'.op) > c.P THEN <<V(k, "C05", "opcode of a later protocol")>> ELSE <<>>)
-         \o (IF safe /\ lexd'.known /\ lexd'.op \in {B_PROTO, B_FRAME, B_STOP} THEN <<V(k, "C05", "PROTO/FRAME/STOP chosen as a body opcode")>> ELSE <<>>)
+         \o (IF ~tail /\ safe /\ lexd'.known /\ lexd'.op \in {B_PROTO, B_FRAME, B_STOP} THEN <<V(k, "C05", "PROTO/FRAME/STOP chosen as a body opcode")>> ELSE <<>>)
          \o (IF safe /\ c.P = 0 /\ \E j \in 1..Len(e.bytes) : e.bytes[j] > 127 THEN <<V(k, "C05", "protocol 0 output is not 7-bit ASCII")>> ELSE <<>>)
+         \o (IF safe /\ lexd'.known /\ lexd'.ok /\ st'.cls # "" THEN <<V(k, PropertyOf(st'.cls), st'.why)>> ELSE <<>>)
          \o (IF safe /\ ~MirrorFull(pre, rp') THEN <<D(k, "path", "source state does not mirror the reference (reported on an earlier edge)")>>
              ELSE IF safe /\ lexd'.known /\ lexd'.ok THEN
                   (IF lexd'.op \notin Family(e.op) THEN <<V(k, "C17", "claimed opcode differs from the emitted bytes")>> ELSE <<>>)
-               \o (IF st'.cls # "" THEN <<V(k, PropertyOf(st'.cls), st'.why)>> ELSE <<>>)
-               \o (IF st'.cls \in {"", "kind"} /\ ~MirrorFull(post, st')
+               \o (IF st'.cls \in {"", "kind"} /\ lexd'.op # B_STOP /\ ~MirrorFull(post, st')
                    THEN <<V(k, "C17", "simulated state differs from the reference state")>> ELSE <<>>)
              ELSE <<>>)
-         \o (IF MaskSet(e.en) # en
+         \o (IF ~tail /\ MaskSet(e.en) # en
              THEN <<D(k, "enabled", <<"impl-only", MaskSet(e.en) \ en, "model-only", en \ MaskSet(e.en)>>)>> ELSE <<>>)
-         \o (IF safe /\ e.err = ""
+         \o (IF ~tail /\ safe /\ e.err = ""
                 /\ ~\E o \in Emissions(mc, e.op, pre.stk, pre.memo) :
                        /\ Len(post.stk) = Len(pre.stk) - o.pop + Len(o.push)
                        /\ SubSeq(post.stk, 1, Len(pre.stk) - o.pop) = SubSeq(pre.stk, 1, Len(pre.stk) - o.pop)
